@@ -59,7 +59,7 @@ def handlers : List (String × Handler) :=
   |>.cons ("c11adv", C11.handle)
   |>.cons ("c20plist", C20.handlePlist) |>.cons ("c20args", C20.handleArgs) |>.cons ("c20e2e", C20.handleE2E) |>.cons ("c20unicode", C20.handleUnicode)
   |>.cons ("c15graph", C15.handleGraph) |>.cons ("c15mut", C15.handleMut) |>.cons ("c15corpus", C15.handleCorpus)
-  |>.cons ("c19e2e", C19.handle) |>.cons ("c19e2e_rel", C19.handle) |>.cons ("c19big", C19.handleBig) |>.cons ("c19big_rel", C19.handleBig)
+  |>.cons ("c19e2e", C19.handle) |>.cons ("c19e2e_rel", C19.handle) |>.cons ("c19off", C19.handle) |>.cons ("c19off_rel", C19.handle) |>.cons ("c19big", C19.handleBig) |>.cons ("c19big_rel", C19.handleBig)
 
 def processLine (line : String) : String :=
   match Sexp.parse line with
